@@ -144,6 +144,7 @@ Definition frames_of_evs (evs : list h2ev) : list h2frame :=
 Inductive c02_case :=
 | H1Case (meth : bytes) (body : bspec) (wire : list piece)
          (cut : option N)           (* the peer closed the connection after this many bytes *)
+         (lim : option N)           (* Transport.MaxResponseHeaderBytes (None: the 10 MiB default) *)
          (has_body : bool)          (* the response carries the body (not HEAD / 204 / 304) *)
          (m : mode) (pat : list N)
          (o_noresp : bool)          (* the call failed without a response *)
@@ -207,7 +208,7 @@ Definition mux_matches (ref : bytes) (d : option mux_delivery)
 
 Definition c02_check (c : c02_case) : bool :=
   match c with
-  | H1Case meth body pieces cut has_body m pat o_noresp o_code o_status o_header o_cl o_trailer o o_interims =>
+  | H1Case meth body pieces cut lim has_body m pat o_noresp o_code o_status o_header o_cl o_trailer o o_interims =>
       let bd := expand_body body in
       let wire := match cut with
                   | Some k => firstn (N.to_nat k) (expand_wire bd pieces)
@@ -215,6 +216,11 @@ Definition c02_check (c : c02_case) : bool :=
                   end in
       let ref := if has_body then bd else [] in
       let sizes := cycle_sizes (S (S (length wire))) pat in
+      (* every head within the limit by itself (then the limited reader = the unlimited one) *)
+      match lim with
+      | Some l => heads_fit_f (S (S max_1xx)) meth br_size (N.to_nat l) wire
+      | None => true
+      end &&
       match h1_exchange_f meth m sizes wire with
       | None => o_noresp
       | Some d =>
